@@ -1,14 +1,110 @@
 /-
-  C17 — property theorems (placeholder while the tie is being brought up).
+  C17 — property theorems.  Statements of the property over ALL schedules (any interleaving
+  of the control script and any number of player threads at the yield points), any chunk
+  counts, any control script; non-vacuity examples; audit.  Helper lemmas: `ALV.Lemmas.C17*`.
 -/
-import ALV.Model.C17
-import ALV.Spec.C17
+import ALV.Lemmas.C17Inv
 import ALV.Common.Audit
 
 namespace ALV.Props.C17
 open ALV.C17
 
-theorem init_not_finished (script : List Cmd) : (init script).finished = false := rfl
+/-- **C17.1 delivered_prefix** — whatever the schedule and the control history, what a device
+stream has received is a prefix of `chunks(audio)` (in order, nothing duplicated, nothing
+skipped), and it is the whole sequence once the player has left its loop without having been
+stopped. -/
+theorem delivered_prefix {cfg : Cfg} {script : List Cmd} {s : State} (h : Reach cfg script s)
+    (k : Nat) (p : Player) (hp : s.players[k]? = some p) :
+    p.written <+: chunksOf cfg.cs p.audio ∧
+    (afterLoop p.pc = true → p.halting = false → p.written = chunksOf cfg.cs p.audio) := by
+  obtain ⟨h0, h1, _, h3⟩ := ploc_reach h k p hp
+  refine ⟨⟨p.todo, by rw [h1, h0]⟩, fun ha hh => ?_⟩
+  rcases h3 ha with ht | ht
+  · rw [← h0, ← h1, ht, List.append_nil]
+  · rw [hh] at ht; cases ht
+
+/-- **C17.2 terminate_once** — the backend is terminated at most once, whatever the schedule
+and however often `close` is called. -/
+theorem terminate_once {cfg : Cfg} {script : List Cmd} {s : State} (h : Reach cfg script s) :
+    s.terminated ≤ 1 := (mi_reach h).term
+
+/-- once `close` has returned normally the manager is finished -/
+theorem finished_after_close {cfg : Cfg} {script : List Cmd} {s : State} (h : Reach cfg script s)
+    (al : List Bool) (n : Nat) (hc : Ev.closeOk al n ∈ s.log) : s.finished = true :=
+  (mi_reach h).okFin al n hc
+
+/-- **C17.4 play_after_close_raises** — on a finished manager `play` creates no thread, opens no
+stream, leaves `_threads` alone and raises `ThreadError` (two steps: lock, raise + release). -/
+theorem play_after_close_raises (cfg : Cfg) (s s1 s2 : State) (a : List Int)
+    (hf : s.finished = true) (hpc : s.mpc = .pAcq a)
+    (h1 : stepMain cfg s = some s1) (h2 : stepMain cfg s1 = some s2) :
+    s1.players = s.players ∧ s2.players = s.players ∧ s2.threads = s.threads ∧
+    Ev.playThreadError ∈ s2.log ∧ s2.finished = true := by
+  unfold stepMain at h1
+  rw [hpc] at h1
+  simp only [hf] at h1
+  split at h1
+  · cases h1
+  · simp only [if_true] at h1
+    cases h1
+    unfold stepMain at h2
+    simp only at h2
+    cases h2
+    refine ⟨rfl, by simp, by simp, mem_next_log_self _ _, by simpa using hf⟩
+
+/-- non-vacuity: `close ; play` reaches the raising branch (default schedule of the control
+script alone) -/
+example : ((runSched ⟨false, false, 2⟩ (init [.close, .play [1, 2, 3]])
+    (List.replicate 9 Tid.main)).1.log) = [.closeOk [] 0, .playThreadError] := by decide
+
+/-! ### the deadlock of the code as it is (D10) -/
+
+def mkSched (l : List Nat) : List Tid := l.map fun n => if n = 0 then Tid.main else Tid.player (n - 1)
+
+/-- `close()` is blocked for ever: the control script is inside `close` (at `thread.join()`), the
+player is blocked in `go.wait()`, nobody can move -/
+def StuckInClose (cfg : Cfg) (s : State) : Prop :=
+  terminal cfg s = true ∧ s.mpc = .kJoin 0 ∧ pcAt s 0 = some .goWait
+
+instance (cfg : Cfg) (s : State) : Decidable (StuckInClose cfg s) := by
+  unfold StuckInClose; infer_instance
+
+/-- **C17.6 deadlock_pause_close** (as-coded model, `wait=False`): `th = play(x); th.pause();
+close()` reaches a state in which `close` never returns.  Schedule found on the real code by the
+scheduler harness (19 steps). -/
+theorem deadlock_pause_close :
+    StuckInClose ⟨false, false, 2⟩
+      (runSched ⟨false, false, 2⟩ (init [.play [101], .ctl .pause 0, .close])
+        (mkSched [0,0,0,0,0,0,0,0,0,0,0,0,1,1,1,1,0,0,0])).1 := by decide
+
+/-- the same with `wait=True` (close joins the paused player without stopping it) -/
+theorem deadlock_pause_close_wait :
+    StuckInClose ⟨true, false, 2⟩
+      (runSched ⟨true, false, 2⟩ (init [.play [101], .ctl .pause 0, .close])
+        (mkSched [0,0,0,0,0,0,0,0,0,0,0,0,1,1,1,1])).1 := by decide
+
+/-- **C17.6b** the player need not be paused when `close` starts: `pause ; play ; close` deadlocks
+too when the thread had already seen the pause (it tests `halting` before `go.wait()` and `stop()`
+clears `go` again afterwards).  So "no player is paused when close starts" is NOT sufficient for
+`close` to return in the code as it is. -/
+theorem deadlock_pause_resume_close :
+    StuckInClose ⟨false, false, 2⟩
+      (runSched ⟨false, false, 2⟩ (init [.play [101], .ctl .pause 0, .ctl .resume 0, .close])
+        (mkSched [0,0,0,0,0,0,0,0,0,0,1,1,1,1,0,0,0,0,0,0,0,0])).1 := by decide
+
+/-- with the proposed fix (`Cfg.fixed`) the very same schedules run `close` to its end -/
+theorem fixed_pause_close_returns :
+    ((runSched ⟨false, true, 2⟩ (init [.play [101], .ctl .pause 0, .close])
+        (mkSched ([0,0,0,0,0,0,0,0,0,0,0,0,1,1,1,1,0,0,0] ++ [1,1,1,1,1,1,0,0,0,0,0]))).1.log
+      = [.playOk 0, .ctlOk, .closeOk [false] 0]) := by decide
+
+/-- **C17.7 alive_after_close_reachable** — the strict reading "no player thread is alive when
+close returns" fails on one window: a player that has already left `_threads` is not joined, and
+may still have its last lock release to do (it is past every backend call: `closed_after`). -/
+theorem alive_after_close_reachable :
+    ((runSched ⟨true, false, 2⟩ (init [.play [101], .close])
+        (mkSched [0,0,0,0,0,0,0,1,1,1,1,1,1,1,0,0,0,0])).1.log
+      = [.playOk 0, .closeOk [true] 0]) := by decide
 
 end ALV.Props.C17
 
